@@ -266,7 +266,7 @@ func orchestrate() int {
 	}
 	runs := 1600
 	if tier == "thorough" {
-		runs = 60000
+		runs = 16000
 	}
 	runs = envInt("VERIF_RUNS", runs)
 	workers := envInt("VERIF_WORKERS", 16)
